@@ -42,6 +42,34 @@ impl Hasher for Fnv {
         }
     }
 }
+/// A hasher that is sensitive to *call boundaries*: every `write` call mixes in its own length and
+/// position before the bytes.  The `Hash` contract must hold for every `Hasher`, including ones for
+/// which `write(ab)` differs from `write(a); write(b)`.
+pub struct BoundaryHasher {
+    h: Fnv,
+    calls: u64,
+}
+impl Default for BoundaryHasher {
+    fn default() -> Self {
+        BoundaryHasher { h: Fnv::default(), calls: 0 }
+    }
+}
+impl Hasher for BoundaryHasher {
+    fn finish(&self) -> u64 {
+        self.h.finish() ^ self.calls.wrapping_mul(0x9E37_79B9_7F4A_7C15)
+    }
+    fn write(&mut self, bytes: &[u8]) {
+        self.calls += 1;
+        self.h.write(&(bytes.len() as u64).to_le_bytes());
+        self.h.write(&self.calls.to_le_bytes());
+        self.h.write(bytes);
+    }
+}
+pub fn boundary_hash_of<T: Hash + ?Sized>(t: &T) -> u64 {
+    let mut h = BoundaryHasher::default();
+    t.hash(&mut h);
+    h.finish()
+}
 pub fn fnv_of<T: Hash + ?Sized>(t: &T) -> u64 {
     let mut h = Fnv::default();
     t.hash(&mut h);
@@ -478,7 +506,7 @@ pub fn apply<const N: usize>(
             tr.push(Obs::Str(model::fmt_with(sut.bref(), k)));
         }
         HashIt => {
-            let h = m(|| fnv_of(sut.bref()));
+            let h = m(|| fnv_of(sut.bref())) ^ m(|| boundary_hash_of(sut.bref())).rotate_left(17);
             tr.push(Obs::Opaque(h));
         }
         EqSelfClone | CmpSelfClone => {
